@@ -1,7 +1,7 @@
 #!/usr/bin/env python3
 """Regenerate /verif/MANIFEST.json from the table below (single source of truth for the interface)."""
 import json
-HOOK_COMMITS = ["b89d4c1"]
+HOOK_COMMITS = ["b89d4c1"]  # fix: commits 070411f 400b628 3c1ee3e are unguarded repairs, see known_findings.json
 CHECKS = {
  "C01": ("model_checking", "seqx", "explicit-state BFS over handle histories on the real crate (re-execution per transition), reference-model + model-independent lifetime invariant",
          "Every reachable state of the bounded handle machine (all handle kinds and conversion paths, <=4/5 live handles, <=2 live allocations) is reached by executing the real crate; in every state a model-independent invariant (value intact while a handle points at its block; destroyed exactly once and block freed when none does) and the reference model's step expectations are checked, and every transition ends with a full release and leak check. This is the right level because C01 quantifies over histories, which the bounded search enumerates to a fixpoint.",
@@ -21,6 +21,27 @@ CHECKS = {
  "C09": ("model_checking", "seqx+loomx", "explicit-state BFS (unwrap oracle) + loom exploration of racing unwrap/drop programs",
          "History half: try_unwrap/try_unique/TryFrom/into_inner/unwrap_or_clone in every state: value out (intact, destructor not run, block freed) iff sole owner, else the same handle back. Schedule half: in every loom execution the value is moved out to at most one thread or destroyed exactly once and its memory is released once.",
          "as C01 and C02"),
+ "C05": ("exploration", "gridx", "exhaustive enumeration of the (header shape x element shape x length x constructor x release path) grid on the real crate under a logging allocator; overflow boundaries in child processes",
+         "Every cell of the shape matrix (21 (size,align) points incl. zero-sized and over-aligned, all ordered pairs in the thorough tier) x length x constructor x release path is executed on the real crate; the arena allocator records each request and return: request >= count + payload by the compiler's own layout rules, payload addresses aligned and inside the block, exactly one return of that block with the requested (size, align), no write outside it. Length-only constructors and lying ExactSizeIterators are driven to every overflow boundary in child processes.",
+         "shape points and lengths as listed in the evidence rule; arena allocator trusted; exhaustive over the grid, not over all types"),
+ "C06": ("exploration", "gridx", "exhaustive enumeration of constructor x length x capacity slack x size_hint regime x element/header class with identity-tracked elements",
+         "Every constructor is run for every length 0..=9 (33 thorough), Vec capacity slack, iterator size_hint regime and element/header class with identity-tracked elements: read-back equals input in order and number, nothing is destroyed while the handle lives, after release every input is destroyed exactly once and the source container's storage is gone; Copy sources and every short string over a multibyte alphabet are compared byte for byte.",
+         "grid bounds as in the evidence rule"),
+ "C07": ("fault_enumeration", "gridx", "exhaustive fault injection: panic at each k-th callback, every lying/changing length script within the stated bounds, each in-window allocation refused (child processes)",
+         "For every API that runs user code a fault-free run counts the callbacks and the API is re-run once per k with a panic armed at the k-th callback; iterators additionally lie about their length in every (reported, actual) combination with |diff|<=2 and every 3-answer changing-hint script; every constructor is re-run in a child process once per allocation with that allocation refused. Afterwards survivors are intact with accurate counts, nothing is destroyed twice, no poison is read or destroyed, only the documented half-built allocation may remain, and a refused allocation ends in the allocation-error abort.",
+         "fault points are callbacks and allocations, not arbitrary instructions; arena allocator trusted"),
+ "C11": ("exploration", "gridx", "exhaustive enumeration of payload shape x handle kind x into/from pairing, addresses compared with the allocator's record",
+         "For every shape (sized, slices of several lengths, str, dyn over each sized shape, thin header/element pairs) and every into/from pairing the pointer handed out is compared with the address Deref yields and heap_ptr with the block start recorded by the allocator, across clones and moves; the recovered handle must have the same block, contents and count and release cleanly; handle sizes and Option niches are tabulated. The ThinArc raw accessors deviate and are listed as known findings.",
+         "shape matrix as in C05; seqx additionally checks address stability in every explored state"),
+ "C12": ("model_checking", "gridx", "bounded exhaustive exploration of union/plain-Arc operation histories per ordered pair of payload shapes, against a two-allocation reference model",
+         "For every ordered pair of payload shapes (equal, byte-aligned, zero-sized, over-aligned) every operation history up to depth 6 (7 thorough) with <=4 live handles over {new, from_first, from_second, union clone/drop, borrow->clone_arc, plain Arc drop} is executed on the real crate; after every step each union must report its variant through every accessor, expose the source Arc's value address with bit 0 clear, report the right allocation's count; the destructor that runs and the (block, size, align) returned must be the variant type's.",
+         "depth/handle bounds; per-type destructor counters; arena allocator trusted"),
+ "C14": ("exploration", "gridx", "exhaustive enumeration of all ordered value pairs of a small domain x handle kind x same/distinct allocation x every operator",
+         "All ordered pairs of (3 headers x 40 slices of length <=3 over 3 letters), with recorded lengths true and false, scalars, floats incl. NaN and -0.0 and an equality-only payload, through every handle kind in the same and in distinct allocations: each operator through the handle must equal the operator on the values (NaN licence only for same-allocation ==), header-slice and thin values must order as (header, slice), and ==, !=, <, <=, >, >=, partial_cmp, cmp, hash must be mutually consistent. A seeded sample of larger values is run and labelled as sampling.",
+         "value domain as stated; three defects found by this check were repaired (known_findings.json, fixed entries)"),
+ "C15": ("exploration", "gridx", "exhaustive enumeration of uninit constructor x length x subset of slots written x continuation",
+         "For every uninitialised constructor, length 0..=4 (6 thorough) and every subset of slots written, the handle is dropped before assume_init (no element destructor may run, the header's runs once) or, with all slots written, assumed initialised (same block, bytes, count; no allocator call, no counter write) and then shared, converted and dropped (every element and the header destroyed exactly once). Deprecated Arc::write/as_mut_slice are called in every sharing state: sole -> writes, shared -> documented panic, nothing modified.",
+         "lengths as stated"),
 }
 props = [json.loads(l) for l in open('/verif/properties.jsonl')]
 m = {
@@ -35,6 +56,7 @@ m = {
  },
  "engines": [
   {"name": "seqx", "path": "harness/seqx", "serves_properties": ["C01", "C03", "C04", "C08", "C09"], "kind_free_text": "explicit-state BFS over handle histories; each transition re-executes the history on the real crate under the arena allocator and compares with a reference model"},
+  {"name": "gridx", "path": "harness/gridx", "serves_properties": ["C05", "C06", "C07", "C11", "C12", "C14", "C15"], "kind_free_text": "exhaustive enumeration of finite shape / input / fault grids, each cell executed on the real crate under the arena allocator"},
   {"name": "loomx", "path": "harness/loomx", "serves_properties": ["C02", "C03", "C08", "C09"], "kind_free_text": "loom 0.7.2 stateless exploration of thread programs on the real crate through the cfg(triomphe_verif) atomic shim"},
  ],
  "checks": [],
